@@ -307,7 +307,7 @@ package provider
 //@             timeVal(deref(timeFormat), getStr(deref(notBefore))) <= clock
 //@   ensures now-before-not-on-or-after: result == nil && getStr(deref(notOnOrAfter)) != "" ==> timeParseOK(deref(timeFormat), getStr(deref(notOnOrAfter))) &&
 //@             clock < timeVal(deref(timeFormat), getStr(deref(notOnOrAfter)))
-//@   ensures unparseable-or-outside-is-rejected: result != nil <==> ((getStr(deref(notBefore)) != "" && (!timeParseOK(deref(timeFormat), getStr(deref(notBefore))) || timeVal(deref(timeFormat), getStr(deref(notBefore))) > clock)) ||
+//@   ensures C06,C13,C07.unparseable-or-outside-is-rejected: result != nil <==> ((getStr(deref(notBefore)) != "" && (!timeParseOK(deref(timeFormat), getStr(deref(notBefore))) || timeVal(deref(timeFormat), getStr(deref(notBefore))) > clock)) ||
 //@             (getStr(deref(notOnOrAfter)) != "" && (!timeParseOK(deref(timeFormat), getStr(deref(notOnOrAfter))) || timeVal(deref(timeFormat), getStr(deref(notOnOrAfter))) <= clock)))
 //@   canary canary-always-ok: result == nil
 //@
